@@ -19,7 +19,9 @@ CHECKS = {
              'disconnect, and their field layouts per era (keep-alive width, teleport id, dismount flag, chat sender, login-success UUID, '
              'the seven join-game eras); TLC encodes two value sets per row with the Wire encoders and checks the table is injective. '
              'For every row the real class must report that id, the reactor must dispatch that id to that class, Packet.write must '
-             'produce exactly the reference bytes, and reading the reference bytes must give the values with nothing left over.',
+             'produce exactly the reference bytes, and reading the reference bytes must give the values with nothing left over. '
+             'Serverbound rows are also written through Connection.write_packet on a Connection of that release, with a fresh packet '
+             'object and with one carrying the context of another release: the connection\'s release decides the bytes.',
         note='The table is recollected (no network): any disagreement on the unchanged tree is adjudicated from in-repo evidence or '
              'the row dropped - none was needed. NBT fields use one fixed blob. Trusted: TLC, pynbt for the blob.',
         design='5/C07'),
@@ -51,7 +53,8 @@ CHECKS = {
              'with PresenceLaw, UpdatesNeverCreate, MapCreatedOnFirstSight, AnglesWrapped as invariants; each history is applied through '
              'the real packets\' apply methods and the projected tracker state compared. Seeded histories of up to 200 packets (3 uuids, '
              '2 maps, all 32 flag combinations) are validated after every packet by TLC running the model. Vector arithmetic '
-             '(component-wise, operand type kept, incl. subclasses), record equality / hash laws, attribute aliases and the flag names '
+             '(component-wise, operand type kept, incl. subclasses), record equality / hash laws (field lists declared by the harness, '
+             'record class hierarchies with the parent class exercised first), attribute aliases and the flag names '
              'of every value 0..255 of the library\'s three flag enums and of generated enums (name parses back; None only when the value '
              'is no union of members) are checked by TLC on recorded observations.',
         note='Trusted: TLC, the projection of the real objects. Integer-valued coordinates; a 4x4 window of the 128x128 map.',
@@ -175,7 +178,11 @@ CHECKS = {
              'model\'s arrival offsets; seeded runs with payload sizes thr-1/thr/thr+1 up to 4 KiB, thresholds {off,0,1,64,256,1000}, '
              'forced-compressed frames, cipher on/off and 1-byte / random / explicit-cut reads are judged read by read and delivery by '
              'delivery by the contract. Queued and forced writes of the real client (and Packet.write with negative thresholds) must '
-             'be recovered exactly by the peer\'s own deframer / inflater / CFB8.',
+             'be recovered exactly by the peer\'s own deframer / inflater / CFB8, with payloads of four compressibility classes. '
+             'FrameWriter.tla models the envelope Packet._write_buffer computes (prefix, data-length field, body sizes) and TLC checks '
+             'WellFramed / PayloadRecovered over boundary sizes x thresholds x deflated sizes (the variant sizing the header by the '
+             'deflated length must fail); frames of the real writer are measured without trusting their declared lengths (the end of the '
+             'deflate stream is found by inflating) and judged by Trace_FrameWriter.tla.',
         note='Trusted: TLC, virtual socket layer, zlib, the peer codec (AES block from cryptography, checked by C18). The exact '
              'compress-iff-larger-than-threshold rule is model-level (drift), the contract requires recoverability and no compressed '
              'frame below the threshold.',
@@ -234,7 +241,9 @@ CHECKS = {
              'scripts up to length 5/6 in both version classes. Each behaviour is replayed against the real code (virtual '
              'sockets, random read segmentation, compression on/off) and the frames the independent peer decoded are compared; '
              'random histories of 60-420 packets (keep-alive ids at all VarInt/Long boundaries, unknown-id frames of random '
-             'content, known-unhandled packets) under every supported version are judged event by event by the contract in TLC.',
+             'content, known-unhandled packets) under every supported version are judged event by event by the contract in TLC. '
+             'Also: two sessions in a row on one Connection object with different compression settings (each judged as a session '
+             'of its own), and the play disconnect packet arriving while queued writes are pending under random schedules.',
         note='Trusted: TLC, the virtual socket/select/lock layer (semantics taken from real sockets), the peer codec, zlib. Packet '
              'ids per version come from the code\'s tables (C07 pins them at releases). Single networking thread: schedules are '
              'not the quantifier here (C12/C16).',
@@ -273,8 +282,9 @@ CHECKS = {
              'and hands the table to TLC: IdTables.tla ASSUMEs every class of a supported version has a non-negative '
              'integer id and no two share one, and model-checks that building the id->class dict in any insertion '
              'order dispatches every class by its own id; the real PacketReactor subclasses are then constructed at '
-             'every supported version under shuffled class orders and their dict must equal the table. Exhaustive '
-             'over the quantifier of the property.',
+             'every supported version under shuffled class orders and their dict must equal the table; the tables are rebuilt in '
+             'descending, zig-zag and shuffled version orders (must stay total and injective whatever was built before) and the '
+             'reactors are rebuilt on one context walked across all versions. Exhaustive over the quantifier of the property.',
         note='Trusted: TLC, JSON hand-over. Nine collisions inside snapshot windows are recorded as known findings '
              '(known_findings.json); entries so excused are excluded from the TLC walk, every other collision alarms.',
         design='5/C06'),
